@@ -370,6 +370,17 @@ func TestVerifPlace(t *testing.T) {
 			if len(c.Layout.Dbs) > 0 {
 				if mr, ok := b.rule.(MycatRule); !ok || fmt.Sprint(mr.GetDatabases()) != fmt.Sprint(c.Layout.Dbs) {
 					res.Dev(fmt.Sprintf("%s %s layout: database list differs", c.Prop, r.Type), "specification %v", c.Layout.Dbs)
+				} else {
+					// table index <-> physical database, both directions
+					for j, db := range c.Layout.Dbs {
+						got, err := b.rule.GetDatabaseNameByTableIndex(j)
+						back, found := mr.GetTableIndexByDatabaseName(db)
+						if err != nil || got != db || !found || back != j {
+							res.Dev(fmt.Sprintf("%s %s layout: table index and database do not correspond", c.Prop, r.Type),
+								"table %d: specification database %q; implementation database %q (%v), index of that database %d (%v)", j, db, got, err, back, found)
+							break
+						}
+					}
 				}
 			}
 			if len(res.Devs) > 0 {
